@@ -5,27 +5,53 @@ DRIVER = "C37"
 GENERATED = []
 SOURCES = ["src/allmydata/util/spans.py"]
 DESIGN_REF = "DESIGN.md §2 C37"
-TECHNIQUE = ("Lean 4 theorems over an executable model of Spans/DataSpans (invariant preservation, refinement to a set of "
-             "integers / a partial map offset->byte, histories of any length); differential correspondence of op histories "
-             "(exact internal span/chunk lists after every operation and every query result) against util/spans.py; "
-             "implementation-side monitor against a Python set / dict reference")
-LEVEL_TEXT = ("Set and partial-map refinement theorems proved in Lean for all span lists, chunk lists and op histories; the "
-              "model is tied to util/spans.py by comparing the exact internal lists (_spans, spans) after every operation "
-              "of seeded histories, and every query result (contains, len, get, pop, get_spans).")
-LEVEL_NOTE = ("Lean kernel + standard axioms; model hand-written, tied by correspondence; Python ints modelled as Nat "
-              "(Spans asserts start >= 0; DataSpans offsets are share offsets).")
-RULE = ("seeded histories of Spans add/remove/contains/len/&/+/-/+=/-= and DataSpans add/remove/get/pop/len/get_spans over "
-        "offsets 0..300 (longer/wider in thorough) against allmydata.util.spans, plus histories over named values "
-        "(4 Spans and 2 DataSpans objects kept alive; results of &, -, +, Spans(other), Spans(list), Spans(s,l), get_spans(), "
-        "DataSpans(other) stored under their own name, degenerate operands included, then mutated in place; every named value "
-        "compared after every step); a case is one operation; distinct = distinct (kind, state-before, op) triples; "
-        "non-trivial = the state before the op is non-empty")
-TRUSTED = ["lean/Tahoe/Spans/Model.lean, DataModel.lean and RegModel.lean are hand transcriptions of util/spans.py (insert+sort modelled "
-           "as ordered insert; Spans.remove's append+sort as ordered insertion into the unscanned suffix; index loops as structural recursion over the list suffix; DataSpans.add case A followed by "
-           "the re-iteration at the same chunk is inlined)"]
-ASSUMPTIONS = ["offsets and lengths are non-negative ints (asserted by Spans.add/remove; DataSpans is only called with share offsets)",
-               "DataSpans.get/pop with length 0 is outside the statement (result compared with the model only)",
-               "`a += a` / `a -= a` iterate over a snapshot of the operand (fix 13d6c66); modelled as the fold over the old value"]
+TECHNIQUE = ("43 Lean 4 theorems over executable models of Spans, DataSpans and a register file of several named objects "
+             "(transcribed from util/spans.py): invariant preservation (wf_add, wf_remove, wf_inter, dinv_add, dinv_remove), "
+             "refinement to a set of integers / a partial map offset->byte with later writes winning (mem_add, mem_remove, "
+             "mem_inter, byteAt_add, byteAt_remove, get_isSome_iff, get_some_bytes, get_eq_specRead, pop_spec), maximal merging "
+             "and canonical form (dinv_no_adjacent, chunk_is_maximal_run, spans_canonical, dspans_canonical), histories of any "
+             "length on final states and on every answer (spans_history, dspans_history, spans_trace, dspans_trace, "
+             "get_after_history), Spans.remove as written equals the span-by-span model (remove_as_written_eq), enumerations / "
+             "bool / empty ranges (each_enumerates_members, dump_enumerates_offsets, bool_iff_nonempty, get_pop_zero_length), "
+             "value semantics of results (rstep_frame_r, rstep_frame_d, operators_eq, spCopy_eq_self, dCopy_byteAt); "
+             "differential correspondence of op histories (exact internal span/chunk lists after every operation, every query "
+             "result, the answers-only trace, all named values after every step) against util/spans.py; implementation-side "
+             "monitor against Python set / dict references; a fixed corpus (one minimal history per seeded change C37-a..e and "
+             "per repaired defect) runs first, VERIF_CORPUS_ONLY=1 runs only it")
+LEVEL_TEXT = ("Proved in Lean for all span lists, chunk lists and operation histories (no size bound): Spans is a set of integers "
+              "under add/remove/&/+/-, DataSpans is a partial map offset->byte (later writes win) under add/remove/get/pop, both "
+              "representations stay maximally merged and canonical, every contains/get/pop answer along any history equals the "
+              "reference machine's, and results of value-returning operators are values of their own. The models are tied to "
+              "util/spans.py by comparing the exact internal lists (_spans, spans) after every operation of seeded histories, "
+              "every query result (contains, len, each, bool, get, pop, _dump, get_spans), the answers-only traces and every "
+              "named value of multi-object histories.")
+LEVEL_NOTE = ("Lean kernel + propext/Classical.choice/Quot.sound only; no _partial theorems; models hand-written and tied by "
+              "correspondence; Python ints modelled as Nat (Spans asserts start >= 0 and length > 0; DataSpans offsets are share "
+              "offsets); object identity (a result aliasing an operand) is checked on the real objects by the named-value "
+              "histories, not expressible in the pure model.")
+RULE = ("fixed corpus first (Spans, DataSpans and named-value histories: branch shapes, seeded changes C37-a..e, the repaired "
+        "`a -= a` defect), then seeded histories of Spans add/remove/contains/len/each/bool/&/+/-/+=/-= and DataSpans "
+        "add/remove/get/pop/len/_dump/bool/get_spans over offsets 0..300 (longer/wider in thorough; some shifted to 2^32 / 2^64) "
+        "against allmydata.util.spans, plus histories over named values (4 Spans and 2 DataSpans objects kept alive; results of "
+        "&, -, +, Spans(other), Spans(list), Spans(s,l), get_spans(), DataSpans(other) stored under their own name, degenerate "
+        "and self operands included, += / -= also with the object itself, then mutated in place; every named value compared "
+        "after every step); a case is one operation; distinct = distinct (kind, state-before, op) triples; non-trivial = the "
+        "state before the op is non-empty")
+TRUSTED = ["lean/Tahoe/Spans/Model.lean, DataModel.lean and RegModel.lean are hand transcriptions of util/spans.py, compared on the "
+           "internal lists after every operation. Remaining deviations from a literal transcription: Spans.add's insert(0)+sort and "
+           "Spans.remove's append+sort are ordered insertions (for remove: into the not yet scanned suffix); Spans.add takes the max "
+           "of the absorbed ends where the code takes the last one (equal on sorted lists); index loops are structural recursions "
+           "over the list suffix; DataSpans.add case A followed by the re-iteration at the same chunk is inlined. Spans.remove's "
+           "in-place pass with deferred slice delete is modelled as written (removeLit) and proved equal to the span-by-span remove "
+           "(remove_as_written_eq).",
+           "dump() strings, get_chunks() returning a fresh list and aliasing between real objects have no model definition: monitor / "
+           "named-value correspondence only"]
+ASSUMPTIONS = ["offsets and lengths are non-negative ints (asserted by Spans.add/remove; DataSpans is only called with share offsets); "
+               "negative values are not covered",
+               "DataSpans.get/pop with length 0 is outside the statement (a partial map has no preferred answer); what the code does "
+               "there is characterised by theorem get_pop_zero_length and compared with the model, the monitor demands nothing",
+               "`a += a` / `a -= a` iterate over a snapshot of the operand (repaired in /repo 13d6c66; fixes/C37-isub-self-operand.diff); "
+               "modelled as the fold over the old value and compared on named-value histories"]
 
 from common import hx
 
